@@ -3018,6 +3018,10 @@ static Type *struct_decl(Token **rest, Token *tok) {
       // Even in a packed struct a non-bit-field member starts on a byte boundary.
       bits = align_to(bits, (ty->is_packed && !mem->has_alignas) ? 8 : mem->align * 8);
       mem->offset = bits / 8;
+      // The layout counts bits in an int: a struct of 256 MiB or more
+      // would wrap around silently.
+      if ((long)bits + (long)mem->ty->size * 8 > INT32_MAX)
+        error_tok(mem->name ? mem->name : tok, "struct too large");
       bits += mem->ty->size * 8;
     }
 
